@@ -47,6 +47,7 @@ m = {
 }
 json.dump(m, open(os.path.join(ROOT, "MANIFEST.json"), "w"), indent=1)
 try:
+    import sys; sys.path[:0]=[p for p in __import__("glob").glob("/opt/veriftools/pyvenv/lib/python3*/site-packages")]
     import jsonschema
     jsonschema.validate(m, json.load(open("/root/.vp/MANIFEST.schema.json")))
     print("MANIFEST.json valid;", len(checks), "checks,", len(na), "not_applicable")
